@@ -61,6 +61,54 @@ def directed_cases(rnd):
     return lines
 
 
+def rejected_header_cases(rnd):
+    """headers the parser gives up on AFTER it has made allocations for them: a symbolic-link entry (-lhd-, permission bits
+    0120000) whose name has no '|' separator (with and without a path header); a directory entry without a path but with
+    a name; a file entry with a path but no name; user / group names followed by a wrong common CRC; an extended header
+    cut short after the name headers -- each followed by a good member, checked, extracted and abandoned"""
+    import struct, lhabuild as lb
+    data = b"hello"
+    P = lambda v: (0x50, struct.pack("<H", v))
+
+    def member(lv, method, exts, name=b"", clen=None, fix=True):
+        d = data if method != b"-lhd-" else b""
+        f = {"level": lv, "method": method, "clen": len(d), "length": len(d), "crc": lb.crc16(d), "os": T.U, "attr": 0x20,
+             "time": T.DOS_B if lv == 1 else T.T_A, "exts": exts}
+        if lv == 1:
+            f["name"] = name
+        return lb.build_header(f, fix_common_crc=fix) + d
+    shapes = []
+    for lv in (1, 2, 3):
+        shapes += [member(lv, b"-lhd-", [(1, b"link-without-separator"), P(0o120777)]),
+                   member(lv, b"-lhd-", [(2, b"some\xffdir\xff"), (1, b"nosep"), P(0o120777), (0x52, b"user"), (0x53, b"group")]),
+                   member(lv, b"-lhd-", [(2, b"only\xffpath\xff"), P(0o120755)]),
+                   member(lv, b"-lhd-", [(1, b"dir-with-name-only"), P(0o40755)]),
+                   member(lv, b"-lh0-", [(2, b"path\xffbut\xffno\xffname\xff"), (0x52, b"u"), (0x53, b"g")]),
+                   member(lv, b"-lh0-", [(1, b"named"), (2, b"p\xff"), (0x52, b"someone"), (0x53, b"somegroup"), (0, b"\x12\x34")], fix=False)]
+    shapes.append(member(1, b"-lhd-", [P(0o120777)], name=b"INHEADER.LNK"))
+    shapes.append(member(1, b"-lhd-", [P(0o120777), (2, b"d\xff")], name=b"DIR\\NAME"))
+    good = member(2, b"-lh0-", [(1, b"after")])
+    lines = []
+    for h in shapes:
+        for arc in (h + good + b"\0", good + h + good + b"\0", h[:len(h) - 3]):
+            for ops in (["n", "c", "n", "x", "n"], ["n", "x"]):
+                lines.append(T.case(rnd.choice(T.KINDS), rnd.choice(T.POLICIES), arc, ops))
+    return lines
+
+
+def owned_cases(rnd):
+    """the stream kind in which the library opens (and must close) the archive file itself: lha_input_stream_from"""
+    import lhabuild as lb
+    data = b"owned stream"
+    one = lb.build_header({"level": 2, "method": b"-lh0-", "clen": len(data), "length": len(data), "crc": lb.crc16(data), "os": T.U,
+                           "attr": 0x20, "time": T.T_A, "exts": [(1, b"o.txt")]}) + data
+    lines = []
+    for arc in (one + one + b"\0", one[:20], b"", b"MZ" + bytes(40) + one + b"\0"):
+        for ops in (["n", "c", "n", "x", "n"], ["n"], [], ["n", "r5"]):
+            lines.append(T.case("owned", "eod", arc, ops))
+    return lines
+
+
 def cases(ctx, rnd, pool):
     lines = []
     alpha = ["n", "r5", "r100000", "c", "x"]
@@ -98,8 +146,9 @@ def run(ctx):
     try:
         drvm = build(cb)
         mode = common.sh([drvm, "--probe"])[1].strip()
-        directed = directed_cases(rnd)
-        lines, n_ex = directed + corpus_cases(ctx, rnd), 0
+        rejected = rejected_header_cases(rnd)
+        directed = directed_cases(rnd) + [l for i, l in enumerate(rejected) if i % 6 == 0]
+        lines, n_ex = directed + [l for i, l in enumerate(rejected) if i % 6 != 0] + corpus_cases(ctx, rnd), 0
         # minimised failures of earlier runs, with their failing request: run first
         kept = [l.strip() for l in open(os.path.join(common.VERIF, "corpus", "C20", "ext_alloc_silent.txt")) if l.startswith("rdr ")]
         try:
@@ -184,6 +233,24 @@ def run(ctx):
                 mism.append({"case": l[:6000], "c": cc[:600], "model": mm[:600],
                              "what": "with allocation request %s failing the ledger and the C differ" % l.split()[3]})
         dist["failinj:ledger-compared"] = n_fail_cmp
+        # the stream kind the extracted model does not have (the library opens the file itself): C-side oracles only
+        own = owned_cases(rnd)
+        own_base = common.run_lines_parallel([drvm], own)
+        own_inj = []
+        for l, c in zip(own, own_base):
+            ca = T.ALLOC_RE.search(c)
+            dist["balance:owned"] += 1
+            if "CHILD-FAILED" in c or ca is None:
+                viol.append({"property": PID, "kind": "invalid-access-or-abort", "case": l, "observed": c[-500:], "sig": "crash"})
+                continue
+            if ca.group(2) != "0" or ca.group(3) != "0":
+                viol.append({"property": PID, "kind": "not-released-after-free", "case": l, "live_blocks": int(ca.group(2)),
+                             "open_files": int(ca.group(3)), "sig": "leak"})
+                continue
+            t = l.split()
+            own_inj += [" ".join(t[:3] + [str(k)] + t[4:]) for k in range(1, int(ca.group(1)) + 1)]
+        inj = inj + own_inj
+        iout = iout + common.run_lines_parallel([drvm], own_inj)
         silent = []
         reached = 0
         for l, c in zip(inj, iout):
@@ -226,7 +293,7 @@ def run(ctx):
                "rule": "histories: every protocol-respecting op sequence over {n, r5, r100000, c, x} up to length %d x 12 small "
                        "archives x 3 directory policies x stream kinds in rotation (%d cases), random protocol-respecting sequences "
                        "(extract-everything style and mixed) over generated archives with nested directories, dangerous symlinks, "
-                       "MacBinary members, damaged and truncated members, cut at random points, the repository's own archives, and headers that assign a field twice (base name + file-name header; duplicate name / path / user / group headers); "
+                       "MacBinary members, damaged and truncated members, cut at random points, the repository's own archives, and headers that assign a field twice (base name + file-name header; duplicate name / path / user / group headers), headers that are rejected after strings were allocated for them (link entries without a separator, entries lacking the name or path they need, a wrong common CRC after user/group names), and the stream kind in which the library opens and closes the archive file itself (lha_input_stream_from; C-side oracles only); "
                        "for each: allocator balance after lha_reader_free + stream free must be 0 blocks / 0 FILE handles, and the "
                        "ledger's predicted live-block count must equal the allocator's after EVERY call.  Then for %d of the cases "
                        "every allocation request k = 1..n of the fault-free run is made to fail in turn (%d runs, %d reached the "
